@@ -244,8 +244,33 @@ func (self *Analyzer) typeDefStatement(node pAst.TypeDefinition) ast.AnalyzedTyp
 // Singleton declaration statement
 //
 
+// Unless the host provides it, a singleton starts as the default value of its type.
+// Returns a type inside of `typ` which has no default value (or nil).
+func typeWithoutDefaultValue(typ ast.Type) ast.Type {
+	switch typ.Kind() {
+	case ast.FnTypeKind, ast.AnyTypeKind, ast.NeverTypeKind:
+		return typ
+	case ast.ObjectTypeKind:
+		for _, field := range typ.(ast.ObjectType).ObjFields {
+			if inner := typeWithoutDefaultValue(field.Type); inner != nil {
+				return inner
+			}
+		}
+	}
+	return nil
+}
+
 func (self *Analyzer) singletonDeclStatement(node pAst.SingletonTypeDefinition) ast.AnalyzedSingletonTypeDefinition {
 	converted := self.ConvertType(node.Type, true)
+
+	if illegal := typeWithoutDefaultValue(converted); illegal != nil {
+		self.error(
+			fmt.Sprintf("Values of type '%s' are not allowed in a singleton", illegal),
+			[]string{"A singleton starts as the default value of its type, this type has none."},
+			node.Type.Span(),
+		)
+		converted = ast.NewUnknownType()
+	}
 
 	singleton, found := self.currentModule.Singletons[node.Ident.Ident()]
 	if found {
